@@ -307,40 +307,27 @@ class World(EventDispatcher):
     def _clear_dead_entities(self):
         """Finalize deletion of any entities marked as dead.
 
-        In the interest of performance, this method duplicates code from
-        the :meth:`delete_entity` method. If that method is changed,
-        those changes should be duplicated here as well.
+        Components are detached one by one through
+        :meth:`remove_component`, which keeps internal tables and event
+        handling coherent (and drops the mark together with the last
+        component). An entity may have lost some of its components
+        since it was marked: what is left is removed. If a callback
+        raises, the mark survives and the next call finishes the job.
+
+        Raises a ``KeyError`` for marks on entities that never existed,
+        after discarding the mark.
         """
-        for entity in self._dead_entities:
+        while self._dead_entities:
+            entity = next(iter(self._dead_entities))
 
-            for component_type, component in self._entities[entity].items():
-                self._components[component_type].discard(entity)
+            if entity not in self._entities:
+                self._dead_entities.discard(entity)
+                raise KeyError(entity)
 
-                if not self._components[component_type]:
-                    del self._components[component_type]
+            for component_type in tuple(self._entities[entity]):
+                self.remove_component(entity, component_type)
 
-                # Event handling
-                if (hasattr(component, '__events__')
-                        and ON_REMOVE_EVENT_NAME in component.__events__):
-                    # Code replication
-                    # If dispatching is enabled, call on_remove directly
-                    # to gain performance. Otherwise an event is dispatched
-                    if (ON_REMOVE_EVENT_NAME in component.__events__
-                            and self._dispatch_enabled):
-                        getattr(component,
-                                component.__events__[ON_REMOVE_EVENT_NAME])(
-                                    entity, self)
-                    # on_add exists but dispatching is disabled
-                    elif not self._dispatch_enabled:
-                        self.dispatch(ON_SINGLE_DISPATCH_EVENT_NAME,
-                                      ON_REMOVE_EVENT_NAME,
-                                      component, entity, self)
-
-                    self.remove_handler(component)
-
-            del self._entities[entity]
-
-        self._dead_entities.clear()
+            self._dead_entities.discard(entity)
 
     def remove_component(self, entity: Hashable, component_type: type[C]):
         """Remove a component from an entity, if the entity owns one.
@@ -369,9 +356,11 @@ class World(EventDispatcher):
                     removed = self._entities[entity][subtype]
                     del self._entities[entity][subtype]
 
-                # Free dict entry for an entity if empty
+                # Free dict entry for an entity if empty. The entity is
+                # gone, hence a pending deletion has nothing left to do
                 if not self._entities[entity]:
                     del self._entities[entity]
+                    self._dead_entities.discard(entity)
 
                 if removed is not None:
                     # No need to check if it is an handler, just check
